@@ -151,6 +151,9 @@ type UP4 struct {
 	// which is needed to efficiently find UE address for UL PDRs in the PFCP messages.
 	// We need both maps to make lookup efficient, but both maps should always be updated in atomic way.
 	fseidToUEAddr map[uint64]uint32
+	// sessionStateMu guards meters, ueAddrToFSEID and fseidToUEAddr:
+	// every PFCP association handles its messages in a goroutine of its own.
+	sessionStateMu sync.RWMutex
 
 	reportNotifyChan chan<- uint64
 	endMarkerChan    chan []byte
@@ -543,7 +546,7 @@ func (up4 *UP4) listenToDDNs() {
 			digestData := up4.p4client.GetNextDigestData()
 
 			ueAddr := binary.BigEndian.Uint32(digestData)
-			if fseid, exists := up4.ueAddrToFSEID[ueAddr]; exists {
+			if fseid, exists := up4.getFSEIDByUEAddr(ueAddr); exists {
 				notifier.Notify(fseid)
 			}
 		}
@@ -917,6 +920,9 @@ func (up4 *UP4) updateUEAddrAndFSEIDMappings(pdr pdr) {
 		return
 	}
 
+	up4.sessionStateMu.Lock()
+	defer up4.sessionStateMu.Unlock()
+
 	// update both maps in one shot
 	up4.ueAddrToFSEID[pdr.ueAddress], up4.fseidToUEAddr[pdr.fseID] = pdr.fseID, pdr.ueAddress
 }
@@ -926,8 +932,53 @@ func (up4 *UP4) removeUeAddrAndFSEIDMappings(pdr pdr) {
 		return
 	}
 
+	up4.sessionStateMu.Lock()
+	defer up4.sessionStateMu.Unlock()
+
 	delete(up4.ueAddrToFSEID, pdr.ueAddress)
 	delete(up4.fseidToUEAddr, pdr.fseID)
+}
+
+func (up4 *UP4) getFSEIDByUEAddr(ueAddr uint32) (uint64, bool) {
+	up4.sessionStateMu.RLock()
+	defer up4.sessionStateMu.RUnlock()
+
+	fseid, exists := up4.ueAddrToFSEID[ueAddr]
+
+	return fseid, exists
+}
+
+func (up4 *UP4) getUEAddrByFSEID(fseid uint64) (uint32, bool) {
+	up4.sessionStateMu.RLock()
+	defer up4.sessionStateMu.RUnlock()
+
+	ueAddr, exists := up4.fseidToUEAddr[fseid]
+
+	return ueAddr, exists
+}
+
+// getMeter returns the zero meter if none is stored for id.
+func (up4 *UP4) getMeter(id meterID) (meter, bool) {
+	up4.sessionStateMu.RLock()
+	defer up4.sessionStateMu.RUnlock()
+
+	p4Meter, exists := up4.meters[id]
+
+	return p4Meter, exists
+}
+
+func (up4 *UP4) storeMeter(id meterID, p4Meter meter) {
+	up4.sessionStateMu.Lock()
+	defer up4.sessionStateMu.Unlock()
+
+	up4.meters[id] = p4Meter
+}
+
+func (up4 *UP4) forgetMeter(id meterID) {
+	up4.sessionStateMu.Lock()
+	defer up4.sessionStateMu.Unlock()
+
+	delete(up4.meters, id)
 }
 
 func (up4 *UP4) updateTunnelPeersBasedOnFARs(fars []far) error {
@@ -1123,10 +1174,10 @@ func (up4 *UP4) configureMeters(qers []qer) error {
 
 		logger.With("P4 meter", p4Meter).Debugln("P4 meter successfully configured!")
 
-		up4.meters[meterID{
+		up4.storeMeter(meterID{
 			qerID: qer.qerID,
 			fseid: qer.fseID,
-		}] = p4Meter
+		}, p4Meter)
 	}
 
 	return nil
@@ -1171,10 +1222,10 @@ func (up4 *UP4) resetMeters(qers []qer) {
 		logger := logger.PfcpLog.With("qer", qer)
 		logger.Debugln("resetting P4 Meter")
 
-		p4Meter, exists := up4.meters[meterID{
+		p4Meter, exists := up4.getMeter(meterID{
 			qerID: qer.qerID,
 			fseid: qer.fseID,
-		}]
+		})
 		if !exists {
 			logger.Errorln("P4 meter for QER ID not found, cannot reset!")
 			continue
@@ -1197,7 +1248,7 @@ func (up4 *UP4) resetMeters(qers []qer) {
 		logger = logger.With("P4 meter", p4Meter)
 		logger.Debugln("removing P4 meter from allocated meters pool")
 
-		delete(up4.meters, meterID{
+		up4.forgetMeter(meterID{
 			qerID: qer.qerID,
 			fseid: qer.fseID,
 		})
@@ -1287,10 +1338,10 @@ func (up4 *UP4) modifyUP4ForwardingConfiguration(pdrs []pdr, allFARs []far, qers
 		var sessMeter = meter{meterTypeSession, 0, 0}
 		if len(pdr.qerIDList) == 2 {
 			// if 2 QERs are provided, the second one is Session QER
-			sessMeter = up4.meters[meterID{
+			sessMeter, _ = up4.getMeter(meterID{
 				qerID: pdr.qerIDList[1],
 				fseid: pdr.fseID,
-			}]
+			})
 			pdrLog.Debug("Application meter found for PDR: ", sessMeter)
 		} // else: if only 1 QER provided, set sessMeterIdx to 0, and use only per-app metering
 
@@ -1302,7 +1353,7 @@ func (up4 *UP4) modifyUP4ForwardingConfiguration(pdrs []pdr, allFARs []far, qers
 		entriesToApply = append(entriesToApply, sessionsEntry)
 
 		if pdr.IsUplink() {
-			ueAddr, exists = up4.fseidToUEAddr[pdr.fseID]
+			ueAddr, exists = up4.getUEAddrByFSEID(pdr.fseID)
 			if !exists {
 				// this is only possible if a linked DL PDR was not provided in the same PFCP Establishment message
 				logger.PfcpLog.Errorln("UE Address not found for uplink PDR, a linked DL PDR was not provided?")
@@ -1339,10 +1390,10 @@ func (up4 *UP4) modifyUP4ForwardingConfiguration(pdrs []pdr, allFARs []far, qers
 			// if only 1 QER provided, it's an application QER
 			// if 2 QERs provided, the first one is an application QER
 			// if more than 2 QERs provided, TODO: not supported
-			appMeter = up4.meters[meterID{
+			appMeter, _ = up4.getMeter(meterID{
 				qerID: pdr.qerIDList[0],
 				fseid: pdr.fseID,
-			}]
+			})
 			pdrLog.Debug("Application meter found for PDR:", appMeter)
 		}
 
